@@ -213,6 +213,7 @@ CHECK = Check(
         "C14.disjoint_after_any_run",
         "C14.findCoordOld_refuted",
         "C14.validate_rejects_small_panels",
+        "C14.requests_are_block_extents",
     ],
     sections=[
         Section(
@@ -244,15 +245,18 @@ CHECK = Check(
         ),
         Section(
             name="output_vcf_no_replacement",
-            theorems=["C14.disjoint_after_any_run", "C14.grant_or_exhausted"],
+            theorems=["C14.disjoint_after_any_run", "C14.grant_or_exhausted", "C14.requests_are_block_extents"],
             gen=lambda rng, tier: _c03("gen")(rng, tier, True),
             impl=lambda c: _c03("impl_wrap")(c),
+            model_req=lambda c: _c03("model_req2")(c),
+            model_obs=lambda c, r: _c03("model_obs")(c, r),
+            equal=lambda a, b: _c03("equal")(a, b),
             oracle=lambda c, o: _c03("oracle")(c, o),
             setup=lambda: _c03("setup")(),
             teardown=lambda x: _c03("teardown")(x),
             nontrivial=lambda c, o: C.jdump(c),
             describe=lambda c, o: "refused-exhausted" if isinstance(o, dict) and "error" in o else "completed",
-            rule="whole output_vcf --no_replacement runs over C03's identifiable panels (panels with exactly, and more than, the needed samples per population; blocks nested in, overlapping, abutting and equal to blocks of other haplotypes on a grid of ends): from the output genotypes every (reference haplotype, variant) pair is used at most once, or the run ends in the 'No available sample' error",
+            rule="whole output_vcf --no_replacement runs over C03's identifiable panels, replayed into the Lean model as in C03 – including, per _convert_haplotype call, the (start, end) stretches requested from _find_random_sample, which must be the blocks' extents (panels with exactly, and more than, the needed samples per population; blocks nested in, overlapping, abutting and equal to blocks of other haplotypes on a grid of ends): from the output genotypes every (reference haplotype, variant) pair is used at most once, or the run ends in the 'No available sample' error",
         ),
         Section(
             name="validate_panel_size",
